@@ -573,6 +573,12 @@ class Spectrum(object):
             the psd on the fly, change the attribute :attr:`sides`.
 
         """
+        if self.__psd is not None and self.modified is True and callable(self):
+            # the stored PSD is obsolete (an attribute changed since it was
+            # computed): refresh it before converting it. Note that this
+            # resets :attr:`sides` to its default value.
+            _ = self.psd
+
         if sides == self.sides:
             #nothing to be done is sides = :attr:`sides
             return self.__psd
